@@ -448,6 +448,10 @@ class RenderContext:
             loop_iteration_carry = 1
 
         if block_scope:
+            if disabled_tags is None:
+                # A block is part of this template. What this context must not do,
+                # like `include` from a rendered partial, the block must not do either.
+                disabled_tags = self.disabled_tags
             ctx = self.__class__(
                 template or self.template,
                 globals=ReadOnlyChainMap(namespace, self.globals),
